@@ -230,3 +230,128 @@ func init() {
 }
 
 var _ = strings.Join
+
+func init() {
+	// an always-target is killed inside its body and then made an ordinary target (its environment is unchanged): the
+	// half-written output must not be taken for a finished one
+	engScenarios = append(engScenarios, func(r *engRun) {
+		s := r.mkSource("")
+		a := r.mkTarget("", nil, []int{s}, 1, true, 0)
+		top := r.mkTarget("", []int{a.ID}, nil, 1, false, 0)
+		r.emitProj("scenario: always-target killed inside its body, then made ordinary")
+		r.build(top.ID, "build", nil, "", "scenario")
+		r.build(top.ID, "build", nil, "partial|"+r.p.label(a.ID), "killed inside the body of the always-target")
+		a.Always = false
+		r.emitProj("always removed from the killed target")
+		o := r.build(top.ID, "build", nil, "", "recovery")
+		if o.Kind == "build" && o.OK {
+			r.checkClean(top.ID)
+		}
+	})
+	// a collection while a declared source file is absent from the tree; the file then comes back unchanged
+	engScenarios = append(engScenarios, func(r *engRun) {
+		s := r.mkSource("")
+		a := r.mkTarget("", nil, []int{s}, 1, false, 0)
+		top := r.mkTarget("", []int{a.ID}, nil, 1, false, 0)
+		r.emitProj("scenario: collection while a declared source is absent")
+		r.build(top.ID, "build", nil, "", "scenario")
+		path := r.p.Sources[s].Path
+		lit := r.litOf[path]
+		os.Remove(filepath.Join(r.root, r.p.Paths[path]))
+		r.litOf[path] = 0
+		r.emitFile(path, 0, "delete source")
+		r.gc(false)
+		r.revertSource(s, lit)
+		o := r.build(top.ID, "build", nil, "", "after the source came back unchanged")
+		if o.Kind == "build" && o.OK && len(o.Ran) != 0 {
+			r.oracle("C14 a collection changed what the next build executes: %v ran although nothing changed", o.Ran)
+		}
+		// and a collection of a tree some of whose outputs were deleted
+		os.Remove(filepath.Join(r.root, r.p.Paths[a.Gens[0]]))
+		r.emitFile(a.Gens[0], 0, "delete output")
+		r.gc(false)
+		o = r.build(top.ID, "build", nil, "", "after collecting with a deleted output")
+		if o.Kind == "build" && o.OK {
+			r.checkClean(top.ID)
+		}
+	})
+	// the project is reached through a symbolic link: build, collect, build
+	engScenarios = append(engScenarios, func(r *engRun) {
+		real := r.root
+		link := real + "-lnk"
+		if err := os.Symlink(real, link); err != nil {
+			return
+		}
+		r.root = link
+		defer func() { r.root = real; os.Remove(link) }()
+		s := r.mkSource("")
+		a := r.mkTarget("", nil, []int{s}, 1, false, 0)
+		top := r.mkTarget("", []int{a.ID}, nil, 1, false, 2)
+		r.emitProj("scenario: project root behind a symbolic link")
+		r.build(top.ID, "build", nil, "", "scenario")
+		r.gc(false)
+		o := r.build(top.ID, "build", nil, "", "after a collection through the link")
+		if o.Kind == "build" && o.OK && len(o.Ran) != 0 {
+			r.oracle("C14 a collection changed what the next build executes: %v ran although nothing changed", o.Ran)
+		}
+		r.editSource(s)
+		r.gc(true)
+		o = r.build(top.ID, "build", nil, "", "after an edit and an index-preferring collection")
+		if o.Kind == "build" && o.OK {
+			r.checkClean(top.ID)
+		}
+	})
+	// one target requested under two spellings in one build: the package-only spelling of a package's default target
+	// beside the full one. Whatever a spelling resolves to, no body runs twice.
+	engScenarios = append(engScenarios, func(r *engRun) {
+		r.p.Pkgs = append(r.p.Pkgs, "p1")
+		r.p.Pad["p1"] = 0
+		s := r.mkSource("p1")
+		d := r.mkTarget("p1", nil, []int{s}, 1, false, 0)
+		d.Name = "default"
+		left := r.mkTarget("", []int{900}, nil, 1, false, 0)
+		right := r.mkTarget("", []int{d.ID}, nil, 1, false, 0)
+		top := r.mkTarget("", []int{left.ID, right.ID}, nil, 1, false, 0)
+		r.p.Unknown = map[int]string{900: "//p1"}
+		r.emitProj("scenario: a default target requested under two spellings")
+		r.build(top.ID, "build", nil, "", "scenario")
+		r.build(top.ID, "build", nil, "", "again")
+		r.build(right.ID, "build", nil, "", "the correctly spelled half")
+	})
+	// a dry run over a dependency cycle returns its error while a sibling of the cycle is still being evaluated: what
+	// the sibling does after Run has returned still belongs to the dry run (no body, no state change)
+	engScenarios = append(engScenarios, func(r *engRun) {
+		s := r.mkSource("")
+		slow := r.mkTarget("", nil, []int{s}, 1, false, 0)
+		x := r.mkTarget("", nil, nil, 1, false, 0)
+		root := r.mkTarget("", []int{x.ID}, nil, 1, false, 0)
+		x.Deps = []int{root.ID, slow.ID}
+		self := r.mkTarget("", nil, nil, 1, false, 1)
+		self.Deps = []int{self.ID, slow.ID}
+		c1 := r.mkTarget("", nil, nil, 1, false, 0)
+		c2 := r.mkTarget("", []int{c1.ID}, nil, 1, false, 0)
+		c3 := r.mkTarget("", []int{c2.ID, slow.ID}, nil, 1, false, 0)
+		c1.Deps = []int{c3.ID}
+		r.emitProj("scenario: dry run over a dependency cycle with a sibling still evaluating")
+		for _, start := range []int{root.ID, self.ID, c1.ID, c3.ID} {
+			_, r.execPos = readLines(filepath.Join(r.root, ".exec.log"), 0)
+			r.extraEnv = []string{"VERIF_STRAGGLER=" + r.p.label(slow.ID)}
+			rep, _, hung := r.child("dry+straggler", r.p.label(start), nil, "")
+			r.extraEnv = nil
+			if hung || rep == nil || rep.LoadErr != "" {
+				r.oracle("C13 dry run over a cycle from %s: no report (hung=%v)", r.p.label(start), hung)
+				continue
+			}
+			if strings.Contains(rep.RunErr, "straggler never finished") {
+				r.oracle("C13 dry run over a cycle from %s: a target was still being evaluated 20s after Run returned", r.p.label(start))
+			}
+			ran, _ := readLines(filepath.Join(r.root, ".exec.log"), r.execPos)
+			if len(ran) != 0 {
+				r.oracle("C13 dry run executed bodies %v after Run returned (cycle from %s)", ran, r.p.label(start))
+			}
+			if rep.HashBefore != rep.HashAfter {
+				r.oracle("C13 dry run of %s changed the tree (files or persisted state) after Run returned", r.p.label(start))
+			}
+		}
+	})
+}
